@@ -234,6 +234,20 @@ def _ctor(case):
     ang = [x * k for x in a]
     cmp("RPY", [(rep, (lambda rep=rep: getattr(L, rep).RPY(ang, order=case["order"], unit=unit))) for rep in ("SO3", "SE3", "UnitQuaternion")],
         rpy_ref(a[0], a[1], a[2], case["order"]))
+    # the same constructors given several rows at once (multi-valued result, element i = row i)
+    rows = [ang, ang[::-1], [ang[1], ang[2], ang[0]]]
+    refsR = [rpy_ref(r[0] / k, r[1] / k, r[2] / k, case["order"]) for r in rows]
+    for rep in ("SO3", "SE3"):
+        for frm, arg in (("list", rows), ("array", np.array(rows))):
+            ok, X = c.lib("RPY[N]:%s" % rep, lambda: getattr(L, rep).RPY(arg, order=case["order"], unit=unit))
+            if ok and c.true("RPY[N]:%s/len" % rep, len(X) == 3, "RPY of three rows holds %d values" % len(X)):
+                for i in range(3):
+                    c.eq("RPY[N]:%s/value" % rep, np.asarray(X.data[i], dtype=float)[:3, :3], refsR[i], TOL, form=frm)
+            ok, X = c.lib("Eul[N]:%s" % rep, lambda: getattr(L, rep).Eul(arg, unit=unit))
+            if ok and len(X) == 3:
+                for i in range(3):
+                    r = rows[i]
+                    c.eq("Eul[N]:%s/value" % rep, np.asarray(X.data[i], dtype=float)[:3, :3], refs.rotz(r[0] / k) @ refs.roty(r[1] / k) @ refs.rotz(r[2] / k), TOL, form=frm)
     cmp("Eul", [(rep, (lambda rep=rep: getattr(L, rep).Eul(ang, unit=unit))) for rep in ("SO3", "SE3", "UnitQuaternion")],
         refs.rotz(a[0]) @ refs.roty(a[1]) @ refs.rotz(a[2]))
     axis = list(case["axis"])
